@@ -1,5 +1,6 @@
-(* C05 — the repaired property predicate only ENLARGES the allowed sets of the first version: whatever
-   [spec_C05_legacy] accepts, [spec_C05] accepts. *)
+(* C05 — the repairs of the property predicate only ENLARGE the allowed sets: whatever [spec_C05_legacy] (record
+   boundaries only) accepts, [spec_C05_v2] (content boundaries for admitted identities) accepts, and whatever that
+   accepts, [spec_C05] (content boundaries for every key recipient, accounts and invite keys) accepts. *)
 From Coq Require Import List NArith Bool Lia.
 Import ListNotations.
 From AnySync Require Import Model.Acl Model.AclKeys Proofs.AclBase.
@@ -55,10 +56,33 @@ Proof.
   eapply amap_le_trans; [apply add_allow_incr|apply IH].
 Qed.
 
-Lemma admit_allow_incr : forall gb ga cs rot m, amap_le m (admit_allow gb ga rot cs m).
+Lemma fold_allow_In : forall (gs : list rid) l m k x,
+  In x (aget k (fold_left (fun m a => add_allow a gs m) l m)) <-> In x (aget k m) \/ (In k l /\ In x gs).
 Proof.
-  intros gb ga cs. induction cs as [|ck rest IH]; intros rot m; cbn [admit_allow]; [apply amap_le_refl|].
+  intros gs l. induction l as [|a l IH]; intros m k x; cbn [fold_left In]; [tauto|].
+  rewrite IH, aget_add_allow. destruct (N.eqb_spec k a) as [->|Hne]; [tauto|].
+  split; [intros [H|[H1 H2]]; tauto|]. intros [H|[[H1|H1] H2]]; [tauto| |tauto]. now contradiction Hne.
+Qed.
+
+Lemma fold_allow_sub : forall (gs : list rid) l1 l2 m1 m2,
+  (forall x, In x l1 -> In x l2) -> amap_le m1 m2 ->
+  amap_le (fold_left (fun m a => add_allow a gs m) l1 m1) (fold_left (fun m a => add_allow a gs m) l2 m2).
+Proof.
+  intros gs l1 l2 m1 m2 Hl Hm k x. rewrite !fold_allow_In. intros [H|[H1 H2]]; [left; now apply Hm|right; split; [now apply Hl|exact H2]].
+Qed.
+
+Lemma admit_allow_incr : forall recv gb ga cs rot m, amap_le m (admit_allow recv gb ga rot cs m).
+Proof.
+  intros recv gb ga cs. induction cs as [|ck rest IH]; intros rot m; cbn [admit_allow]; [apply amap_le_refl|].
   eapply amap_le_trans; [apply fold_allow_incr|apply IH].
+Qed.
+
+Lemma admit_allow_mono : forall (recv1 recv2 : content -> list N) gb ga cs rot m1 m2,
+  (forall c x, In x (recv1 c) -> In x (recv2 c)) -> amap_le m1 m2 ->
+  amap_le (admit_allow recv1 gb ga rot cs m1) (admit_allow recv2 gb ga rot cs m2).
+Proof.
+  intros recv1 recv2 gb ga cs. induction cs as [|ck rest IH]; intros rot m1 m2 Hr Hm; cbn [admit_allow]; [exact Hm|].
+  apply IH; [exact Hr|]. apply fold_allow_sub; [apply Hr|exact Hm].
 Qed.
 
 Lemma subsetN_mono : forall a b c, subsetN a b = true -> (forall x, In x b -> In x c) -> subsetN a c = true.
@@ -79,28 +103,64 @@ Proof.
   - destruct (o_view_nv o); [|reflexivity]. eapply subsetN_mono; [eassumption|apply Hle].
 Qed.
 
-Lemma spec_steps_mono : forall steps g l a1 a2 ai mem op ik,
-  amap_le a1 a2 ->
-  spec_steps_gen false (mkS g l a1 ai mem op ik) steps = true ->
-  spec_steps_gen true (mkS g l a2 ai mem op ik) steps = true.
+(* one version of the predicate is at most as strict as another *)
+Definition lvl_le (cl1 : bool) (r1 : content -> list N) (cl2 : bool) (r2 : content -> list N) : Prop :=
+  if cl1 then cl2 = true /\ (forall c x, In x (r1 c) -> In x (r2 c)) else True.
+
+Lemma allow_of_le : forall cl1 r1 cl2 r2 gb ga cs m1 m2, lvl_le cl1 r1 cl2 r2 -> amap_le m1 m2 ->
+  amap_le (if cl1 then admit_allow r1 gb ga false cs m1 else m1) (if cl2 then admit_allow r2 gb ga false cs m2 else m2).
 Proof.
-  induction steps as [|st rest IH]; intros g l a1 a2 ai mem op ik Hle; cbn [spec_steps_gen]; [reflexivity|].
+  intros cl1 r1 cl2 r2 gb ga cs m1 m2 Hl Hm. destruct cl1; cbn in Hl.
+  - destruct Hl as [-> Hr]. now apply admit_allow_mono.
+  - destruct cl2; [|exact Hm]. eapply amap_le_trans; [exact Hm|apply admit_allow_incr].
+Qed.
+
+Lemma spec_steps_mono : forall cl1 r1 ri1 cl2 r2 ri2, lvl_le cl1 r1 cl2 r2 -> lvl_le cl1 ri1 cl2 ri2 ->
+  forall steps g l a1 a2 ai1 ai2 mem op ik,
+  amap_le a1 a2 -> amap_le ai1 ai2 ->
+  spec_steps_gen cl1 r1 ri1 (mkS g l a1 ai1 mem op ik) steps = true ->
+  spec_steps_gen cl2 r2 ri2 (mkS g l a2 ai2 mem op ik) steps = true.
+Proof.
+  intros cl1 r1 ri1 cl2 r2 ri2 Hl Hli.
+  induction steps as [|st rest IH]; intros g l a1 a2 ai1 ai2 mem op ik Hle Hlei; cbn [spec_steps_gen]; [reflexivity|].
   unfold spec_step_gen. cbn [s_gens s_log s_allow s_allow_inv s_members s_open s_invkeys].
   destruct (negb (st_ok st)).
   - cbn [andb]. now apply IH.
   - intros H. apply andb_true_iff in H. destruct H as [Hok Hrest].
+    match type of Hrest with spec_steps_gen _ _ _ (mkS ?g' ?l' ?A1 ?AI1 _ _ _) _ = true => set (A1' := A1) in *; set (AI1' := AI1) in * end.
+    match goal with |- context [mkS _ _ ?A2 ?AI2 _ _ _] => set (A2' := A2); set (AI2' := AI2) end.
+    assert (HA : amap_le A1' A2') by (apply allow_of_le; [exact Hl|now apply fold_allow_mono]).
+    assert (HAI : amap_le AI1' AI2') by (apply allow_of_le; [exact Hli|now apply fold_allow_mono]).
     apply andb_true_iff. split.
     + repeat (apply andb_true_iff in Hok; destruct Hok as [Hok ?]).
       repeat (apply andb_true_iff; split); try assumption.
-      rewrite forallb_forall in *. intros o Ho. eapply acct_ok_mono; [|apply Hok, Ho].
-      eapply amap_le_trans; [apply fold_allow_mono, Hle|apply admit_allow_incr].
-    + eapply IH; [|exact Hrest].
-      eapply amap_le_trans; [apply fold_allow_mono, Hle|apply admit_allow_incr].
+      * rewrite forallb_forall in *. intros o Ho. eapply acct_ok_mono; [exact HA|apply Hok, Ho].
+      * match goal with Hk : forallb _ (dedup _) = true |- _ => rename Hk into Hinv end.
+        rewrite forallb_forall in *. intros k Hk. eapply subsetN_mono; [apply Hinv, Hk|apply HAI].
+    + eapply IH; [exact HA|exact HAI|exact Hrest].
+Qed.
+
+Lemma admits_key_receivers : forall c x, In x (admits c) -> In x (key_receivers c).
+Proof.
+  intros c x H. unfold key_receivers. destruct c; cbn [admits] in H; try contradiction; cbn [is_rot]; exact H.
+Qed.
+
+Theorem spec_legacy_implies_v2 : forall owner root steps,
+  spec_C05_legacy owner root steps = true -> spec_C05_v2 owner root steps = true.
+Proof.
+  intros owner root steps H. unfold spec_C05_v2, spec_C05_legacy, sinit in *.
+  eapply (spec_steps_mono false admits (fun _ => []) true admits (fun _ => []));
+    [exact I|exact I|apply amap_le_refl|apply amap_le_refl|exact H].
+Qed.
+
+Theorem spec_v2_implies_spec : forall owner root steps,
+  spec_C05_v2 owner root steps = true -> spec_C05 owner root steps = true.
+Proof.
+  intros owner root steps H. unfold spec_C05, spec_steps, spec_C05_v2, sinit in *.
+  eapply (spec_steps_mono true admits (fun _ => []) true key_receivers inv_receivers);
+    [split; [reflexivity|apply admits_key_receivers]|split; [reflexivity|intros c x []]|apply amap_le_refl|apply amap_le_refl|exact H].
 Qed.
 
 Theorem spec_legacy_implies_spec : forall owner root steps,
   spec_C05_legacy owner root steps = true -> spec_C05 owner root steps = true.
-Proof.
-  intros owner root steps H. unfold spec_C05, spec_steps, spec_C05_legacy, sinit in *.
-  eapply spec_steps_mono; [apply amap_le_refl|exact H].
-Qed.
+Proof. intros owner root steps H. now apply spec_v2_implies_spec, spec_legacy_implies_v2. Qed.
